@@ -9,7 +9,10 @@
 (* multiply_and_add / add_and_multiply in both in-place orders, inverse,       *)
 (* partial inverse w.r.t. a sub-product Q, partial multiplicative identity,    *)
 (* set_characteristic (refused iff the interval contains no prime; for the Z_p *)
-(* classes iff n is not a prime > 1).                                          *)
+(* classes iff n is not a prime > 1).  Nothing is specified about a field      *)
+(* after a refusal: the machine is then in NoField, where the only enabled     *)
+(* action is another set_characteristic, and nothing is observed until one is  *)
+(* accepted.                                                                   *)
 (*                                                                             *)
 (* Two levels of definition, proved equal on the bounded model (MC_Fields):    *)
 (*   integer level  : arithmetic reduced modulo P      (registers, small P)    *)
@@ -37,6 +40,9 @@ Idem(i, ps) == LET P == Prod(ps)  M == P \div ps[i]
 Field(lo, hi) == LET ps == PrimesIn(lo, hi)
                  IN [lo |-> lo, hi |-> hi, ps |-> ps, mod |-> Prod(ps), idem |-> [i \in DOMAIN ps |-> Idem(i, ps)]]
 HasPrime(lo, hi) == lo <= hi /\ PrimesIn(lo, hi) # <<>>
+(* the state after a refused set_characteristic: no characteristic, no operation enabled, nothing observable *)
+NoField  == [lo |-> 0, hi |-> 0, ps |-> <<>>, mod |-> 0, idem |-> <<>>]
+Valid(f) == f.ps # <<>>
 SumIdem(c, f) == LET RECURSIVE F(_)                      \* sum of c[i] * idempotent i, c[i] < ps[i]
                      F(i) == IF i = 0 THEN 0 ELSE AddP(F(i - 1), MulP(c[i], f.idem[i], f.mod), f.mod)
                  IN F(Len(f.ps))
@@ -50,7 +56,7 @@ AddMul(x, y, z, P) == MulP(AddP(x, y, P), z, P)          \* (x + y) * z
 
 (* ------------------------------------------------------------------- actions *)
 Upd(i, v) == reg' = [reg EXCEPT ![i] = v]
-Same      == UNCHANGED fld
+Same      == Valid(fld) /\ UNCHANGED fld     \* every operation needs a field whose characteristic was accepted
 
 Conv(i, n) ==                 \* construction / assignment from a machine integer: its residue
   /\ Upd(i, Red(n, Mod(fld))) /\ Same
@@ -79,7 +85,7 @@ SetCharacteristic(lo, hi) ==
   IF HasPrime(lo, hi)
   THEN /\ fld' = Field(lo, hi) /\ reg' = <<0, 0, 0>>
        /\ act' = [op |-> "set_characteristic", lo |-> lo, hi |-> hi, ret |-> "ok"]
-  ELSE /\ UNCHANGED <<fld, reg>>
+  ELSE /\ fld' = NoField /\ reg' = <<0, 0, 0>>      \* refused: only the refusal itself is specified
        /\ act' = [op |-> "set_characteristic", lo |-> lo, hi |-> hi, ret |-> "refused"]
 
 (* --------------------------------------------- residue level (any modulus size) *)
@@ -108,11 +114,13 @@ ArithOps == {"add", "sub", "mul", "muladd", "addmul", "pte", "tminus"}
 (* ------------------------------------------------------------ in-model theorems *)
 (* checked by TLC as invariants of the bounded model on every reachable state     *)
 ThCRT ==           \* arithmetic modulo the product = componentwise arithmetic on the residues; CRT is a bijection
+  Valid(fld) =>
   LET ps == Ps(fld)  P == Mod(fld)  x == reg[1]  y == reg[2]  z == reg[3]
       R(n) == Residues(n, ps)
   IN /\ \A op \in ArithOps : R(ResI(op, x, y, z, P)) = ResT(op, R(x), R(y), R(z), ps)
      /\ ToInt(R(x), fld) = x
 ThRing ==          \* commutative ring with unit
+  Valid(fld) =>
   LET P == Mod(fld)  x == reg[1]  y == reg[2]  z == reg[3]
   IN /\ AddP(x, y, P) = AddP(y, x, P) /\ MulP(x, y, P) = MulP(y, x, P)
      /\ AddP(AddP(x, y, P), z, P) = AddP(x, AddP(y, z, P), P)
@@ -122,6 +130,7 @@ ThRing ==          \* commutative ring with unit
      /\ MulP(x, 1 % P, P) = x /\ AddP(x, 0, P) = x
      /\ MulSplit(x, y, P) = MulDirect(x, y, P)
 ThInverse ==       \* x * partial inverse = partial identity of T; T | Q; idempotents; Fermat inverse = definition
+  Valid(fld) =>
   LET ps == Ps(fld)  P == Mod(fld)  x == reg[1]
   IN (reg[2] = 0 /\ reg[3] = 0) => \A sel \in Sels(fld) :
        LET t == PInvSel(Residues(x, ps), sel, ps)  v == PInvV(x, sel, fld)  e == PMI(sel, fld)
@@ -134,5 +143,6 @@ ThInverse ==       \* x * partial inverse = partial identity of T; T | Q; idempo
           /\ (Len(ps) = 1 /\ x # 0 /\ sel = {1}) => MulP(x, v, P) = 1
 ThIdem ==          \* the stored idempotents are 1 modulo their prime and 0 modulo the others
   \A i, j \in DOMAIN fld.ps : fld.idem[i] % fld.ps[j] = (IF i = j THEN 1 ELSE 0)
-TypeOK == /\ Ps(fld) # <<>> /\ fld = Field(fld.lo, fld.hi) /\ \A i \in 1..3 : reg[i] \in 0..(Mod(fld) - 1)
+TypeOK == IF Valid(fld) THEN fld = Field(fld.lo, fld.hi) /\ \A i \in 1..3 : reg[i] \in 0..(Mod(fld) - 1)
+          ELSE fld = NoField /\ reg = <<0, 0, 0>>
 =============================================================================
